@@ -913,7 +913,13 @@ class Mgm2Computation(VariableComputation):
                 for n, val in self._neighbors_gains.items()
                 if n != self._partner.name
             ]
-            if neigh_gains == [] or self._potential_gain > max(neigh_gains):
+            # Gains are current_cost - new_cost: the best gain is the biggest
+            # one when minimizing and the smallest one when maximizing.
+            if (
+                neigh_gains == []
+                or (self._mode == "min" and self._potential_gain > max(neigh_gains))
+                or (self._mode == "max" and self._potential_gain < min(neigh_gains))
+            ):
                 if self.logger.isEnabledFor(logging.INFO):
                     self.logger.info(
                         f"Commited and best gain : GO for "
@@ -932,8 +938,13 @@ class Mgm2Computation(VariableComputation):
             self._enter_state("go?")
 
         else:
-            max_neighbors = max(list(self._neighbors_gains.values()))
-            if self._potential_gain > max_neighbors:
+            if self._mode == "min":
+                max_neighbors = max(list(self._neighbors_gains.values()))
+                is_best = self._potential_gain > max_neighbors
+            else:
+                max_neighbors = min(list(self._neighbors_gains.values()))
+                is_best = self._potential_gain < max_neighbors
+            if is_best:
                 if self.logger.isEnabledFor(logging.INFO):
                     self.logger.info(
                         f"Local gain is best, {self.name} unilaterally changes its "
